@@ -409,7 +409,7 @@ Proof.
   exists (fun q n =>
             let '(i, j, k, l) := q in let '(w1, w2, w3) := n in
             (Z.of_nat i * w2 - Z.of_nat j * w1) * (Z.of_nat k * (w1 + w2 - w3) - Z.of_nat l * w3)).
-  repeat split.
+  split; [|split; [|split; [|split; [split|]]]].
   - intros i j k l w1 w2 w3. cbn beta iota. ring.
   - intros i j k l w1 w2 w3. cbn beta iota. ring.
   - intros v. apply Z.opp_involutive.
@@ -417,3 +417,586 @@ Proof.
   - intros v. destruct v; reflexivity.
   - vm_compute. discriminate.
 Qed.
+
+(** * Unique keys *)
+
+Section Keys.
+  Context {A : Type}.
+
+  Lemma qfind_None_notin (k : quad) (m : qmap A) : qfind k m = None <-> ~ In k (qkeys m).
+  Proof.
+    induction m as [|[k' v'] r IH]; cbn [qfind qkeys map fst In].
+    - split; [intros _ []|reflexivity].
+    - destruct (quad_eqb k k') eqn:E.
+      + apply quad_eqb_eq in E. subst k'. split; [discriminate|]. intros N. exfalso. apply N. left. reflexivity.
+      + apply quad_eqb_neq in E. rewrite IH. unfold qkeys. split.
+        * intros N [H|H]; [congruence|contradiction].
+        * intros N H. apply N. right. exact H.
+  Qed.
+
+  Lemma In_qkeys_qins (k k' : quad) (v : A) (m : qmap A) :
+    In k' (qkeys (qins k v m)) <-> k' = k \/ In k' (qkeys m).
+  Proof.
+    induction m as [|[k2 v2] r IH]; cbn [qins qkeys map fst In].
+    - split; [intros [H|[]]; left; congruence|intros [H|[]]; left; congruence].
+    - destruct (quad_ltb k2 k); cbn [qkeys map fst In].
+      + unfold qkeys in IH. rewrite IH. tauto.
+      + split; [intros [H|H]; [left; congruence|right; exact H]|intros [H|H]; [left; congruence|right; exact H]].
+  Qed.
+
+  Lemma NoDup_qins (k : quad) (v : A) (m : qmap A) :
+    NoDup (qkeys m) -> ~ In k (qkeys m) -> NoDup (qkeys (qins k v m)).
+  Proof.
+    induction m as [|[k2 v2] r IH]; cbn [qins qkeys map fst]; intros N I.
+    - constructor; [intros []|constructor].
+    - destruct (quad_ltb k2 k); cbn [qkeys map fst].
+      + inversion N as [|x l N1 N2]. subst. constructor.
+        * intros H. apply (In_qkeys_qins k k2 v r) in H. destruct H as [H|H]; [|contradiction].
+          apply I. left. exact H.
+        * apply IH; [exact N2|]. intros H. apply I. right. exact H.
+      + constructor; [exact I|exact N].
+  Qed.
+
+  Lemma NoDup_qinsert (k : quad) (v : A) (m : qmap A) : NoDup (qkeys m) -> NoDup (qkeys (qinsert k v m)).
+  Proof.
+    intros N. unfold qinsert. destruct (qfind k m) eqn:F; [exact N|].
+    apply NoDup_qins; [exact N|]. apply qfind_None_notin. exact F.
+  Qed.
+
+  Lemma NoDup_In_qfind (k : quad) (v : A) (m : qmap A) : NoDup (qkeys m) -> In (k, v) m -> qfind k m = Some v.
+  Proof.
+    induction m as [|[k' v'] r IH]; cbn [qfind qkeys map fst In]; intros N I; [contradiction|].
+    inversion N as [|x l N1 N2]. subst. destruct I as [I|I].
+    - inversion I. subst. rewrite quad_eqb_refl. reflexivity.
+    - destruct (quad_eqb k k') eqn:E.
+      + apply quad_eqb_eq in E. subst k'. exfalso. apply N1. change k with (fst (k, v)). apply in_map. exact I.
+      + apply IH; assumption.
+  Qed.
+End Keys.
+
+(** * Layer 2: IndexContainer4::set *)
+
+Lemma set_inserts_nontrivial_true : set_inserts_nontrivial = true.
+Proof. reflexivity. Qed.
+
+Lemma qfind_add_alias (q : quad) (e : nat) (em : qmap (nat * perm4))
+      (a : list (nat * nat) * (nat * nat * nat * nat) * nat) (k : quad) :
+  qfind k (add_alias q e em a) =
+  match qfind k em with
+  | Some x => Some x
+  | None => if alias_cond q (fst (fst a)) && quad_eqb k (alias_key q (snd (fst a)))
+            then Some (e, perm_at (snd a)) else None
+  end.
+Proof.
+  destruct a as [[req pos] idx]. cbn [fst snd]. unfold add_alias.
+  destruct (alias_cond q req) eqn:C; cbn [andb].
+  - destruct (qfind (alias_key q pos) em) eqn:F.
+    + destruct (qfind k em) eqn:Fk; [reflexivity|].
+      destruct (quad_eqb k (alias_key q pos)) eqn:E; [|reflexivity].
+      apply quad_eqb_eq in E. subst k. congruence.
+    + rewrite qfind_qinsert. reflexivity.
+  - destruct (qfind k em); reflexivity.
+Qed.
+
+Lemma fold_alias_mono (q : quad) (e : nat) (al : list (list (nat * nat) * (nat * nat * nat * nat) * nat)) :
+  forall em k x, qfind k em = Some x -> qfind k (fold_left (add_alias q e) al em) = Some x.
+Proof.
+  induction al as [|a r IH]; intros em k x H; cbn [fold_left]; [exact H|].
+  apply IH. rewrite qfind_add_alias, H. reflexivity.
+Qed.
+
+Lemma fold_alias_new (q : quad) (e : nat) (al : list (list (nat * nat) * (nat * nat * nat * nat) * nat)) :
+  forall em k r, qfind k (fold_left (add_alias q e) al em) = Some r ->
+  qfind k em = Some r \/
+  (qfind k em = None /\ fst r = e /\
+   exists req pos idx, In (req, pos, idx) al /\ alias_cond q req = true /\ k = alias_key q pos /\ snd r = perm_at idx).
+Proof.
+  induction al as [|a rest IH]; intros em k r H; cbn [fold_left] in H; [left; exact H|].
+  destruct (IH _ _ _ H) as [H1|[H1 [He [req [pos [idx [I [C [Ek Ep]]]]]]]]].
+  - rewrite qfind_add_alias in H1. destruct (qfind k em) eqn:F; [left; exact H1|]. right.
+    destruct a as [[req pos] idx]. cbn [fst snd] in H1.
+    destruct (alias_cond q req && quad_eqb k (alias_key q pos)) eqn:B; [|discriminate H1].
+    apply andb_true_iff in B. destruct B as [C E]. apply quad_eqb_eq in E. inversion H1. subst r.
+    split; [reflexivity|]. split; [reflexivity|]. exists req, pos, idx.
+    split; [left; reflexivity|]. split; [exact C|]. split; [exact E|reflexivity].
+  - right. rewrite qfind_add_alias in H1. destruct (qfind k em) eqn:F; [discriminate H1|].
+    split; [reflexivity|]. split; [exact He|]. exists req, pos, idx.
+    split; [right; exact I|]. split; [exact C|]. split; [exact Ek|exact Ep].
+Qed.
+
+(** the entries [set q] creates for its new element: the owner, or one of the table's aliases *)
+Definition new_entry (q k : quad) (p : perm4) : Prop :=
+  (k = q /\ p = perm_at set_owner_perm_index) \/
+  exists req pos idx, In (req, pos, idx) set_aliases /\ alias_cond q req = true /\ k = alias_key q pos /\ p = perm_at idx.
+
+Lemma set_elems (st : cstate) (q : quad) : elems (fst (set_ st q)) = elems st ++ [(q, Constructed)].
+Proof. reflexivity. Qed.
+
+Lemma set_nontriv (st : cstate) (q : quad) :
+  nontriv (fst (set_ st q)) = qinsert q (length (elems st)) (nontriv st).
+Proof. unfold set_. cbn [fst nontriv]. rewrite set_inserts_nontrivial_true. reflexivity. Qed.
+
+Lemma set_emap_mono (st : cstate) (q k : quad) (x : nat * perm4) :
+  qfind k (emap st) = Some x -> qfind k (emap (fst (set_ st q))) = Some x.
+Proof.
+  intros H. unfold set_. cbn [fst emap]. apply fold_alias_mono. rewrite qfind_qinsert, H. reflexivity.
+Qed.
+
+Lemma set_emap_new (st : cstate) (q k : quad) (r : nat * perm4) :
+  qfind k (emap (fst (set_ st q))) = Some r ->
+  qfind k (emap st) = Some r \/
+  (qfind k (emap st) = None /\ fst r = length (elems st) /\ new_entry q k (snd r)).
+Proof.
+  unfold set_. cbn [fst emap]. intros H.
+  destruct (fold_alias_new _ _ _ _ _ _ H) as [H1|[H1 [He [req [pos [idx [I [C [Ek Ep]]]]]]]]].
+  - rewrite qfind_qinsert in H1. destruct (qfind k (emap st)) eqn:F; [left; exact H1|]. right.
+    destruct (quad_eqb k q) eqn:E; [|discriminate H1]. apply quad_eqb_eq in E. inversion H1. subst r k.
+    split; [reflexivity|]. split; [reflexivity|]. left. split; reflexivity.
+  - right. rewrite qfind_qinsert in H1. destruct (qfind k (emap st)) eqn:F; [discriminate H1|].
+    split; [reflexivity|]. split; [exact He|]. right. exists req, pos, idx.
+    split; [exact I|]. split; [exact C|]. split; [exact Ek|exact Ep].
+Qed.
+
+Lemma set_emap_self (st : cstate) (q : quad) :
+  qfind q (emap st) = None ->
+  qfind q (emap (fst (set_ st q))) = Some (length (elems st), perm_at set_owner_perm_index) /\
+  snd (set_ st q) = (length (elems st), perm_at set_owner_perm_index).
+Proof.
+  intros H. unfold set_. cbn [fst snd emap].
+  assert (E : qfind q (qinsert q (length (elems st), perm_at set_owner_perm_index) (emap st)) =
+              Some (length (elems st), perm_at set_owner_perm_index)).
+  { rewrite qfind_qinsert, H, quad_eqb_refl. reflexivity. }
+  split; [apply fold_alias_mono; exact E|]. rewrite E. reflexivity.
+Qed.
+
+Lemma nth_error_snoc_old {A : Type} (l : list A) (x : A) (e : nat) (y : A) :
+  nth_error l e = Some y -> nth_error (l ++ [x]) e = Some y.
+Proof.
+  intros H. rewrite nth_error_app1; [exact H|]. apply nth_error_Some. congruence.
+Qed.
+
+Lemma nth_error_snoc_new {A : Type} (l : list A) (x : A) : nth_error (l ++ [x]) (length l) = Some x.
+Proof. rewrite nth_error_app2 by lia. rewrite Nat.sub_diag. reflexivity. Qed.
+
+(** * Extension of a state: entries and elements stay, statuses grow *)
+
+Definition ext (st st' : cstate) : Prop :=
+  (forall k x, qfind k (emap st) = Some x -> qfind k (emap st') = Some x) /\
+  (forall e q s, nth_error (elems st) e = Some (q, s) ->
+                 exists s', nth_error (elems st') e = Some (q, s') /\ status_leb s s' = true).
+
+Lemma ext_refl (st : cstate) : ext st st.
+Proof.
+  split; [intros k x H; exact H|]. intros e q s H. exists s. split; [exact H|apply status_leb_refl].
+Qed.
+
+Lemma ext_trans (a b c : cstate) : ext a b -> ext b c -> ext a c.
+Proof.
+  intros [M1 E1] [M2 E2]. split; [intros k x H; apply M2, M1, H|].
+  intros e q s H. destruct (E1 _ _ _ H) as [s1 [H1 O1]]. destruct (E2 _ _ _ H1) as [s2 [H2 O2]].
+  exists s2. split; [exact H2|]. eapply status_leb_trans; eassumption.
+Qed.
+
+Lemma ext_set (st : cstate) (q : quad) : ext st (fst (set_ st q)).
+Proof.
+  split; [intros k x H; apply set_emap_mono; exact H|].
+  intros e q0 s H. exists s. split; [|apply status_leb_refl]. rewrite set_elems. apply nth_error_snoc_old. exact H.
+Qed.
+
+Lemma ext_with_elems (st : cstate) (el : estore) : store_le (elems st) el -> ext st (with_elems st el).
+Proof. intros [_ L]. split; [intros k x H; exact H|]. exact L. Qed.
+
+(** * Invariants *)
+
+Section Invariants.
+  Variable V : Type.
+  Variable vscale : Z -> V -> V.
+  Variable chi : quad -> triple -> V.
+  Hypothesis T : tables_ok V vscale chi.
+
+  (** every entry refers to an existing element and returns chi of its key; every NonTrivialElements entry
+      refers to an existing element made for its key.  Holds for both variants of fill. *)
+  Definition inv_sound (st : cstate) : Prop :=
+    (forall k e p, qfind k (emap st) = Some (e, p) ->
+       exists q0 s, nth_error (elems st) e = Some (q0, s) /\ entry_denotes V vscale chi p q0 k) /\
+    (forall q0 e, qfind q0 (nontriv st) = Some e -> exists s, nth_error (elems st) e = Some (q0, s)).
+
+  Lemma new_entry_denotes (q k : quad) (p : perm4) : new_entry q k p -> entry_denotes V vscale chi p q k.
+  Proof.
+    destruct T as [To Ta]. intros [[-> ->]|[req [pos [idx [I [C [-> ->]]]]]]].
+    - apply To.
+    - eapply Ta; eassumption.
+  Qed.
+
+  Lemma inv_sound_init : inv_sound init.
+  Proof. split; intros; discriminate. Qed.
+
+  Lemma inv_sound_set (st : cstate) (q : quad) : inv_sound st -> inv_sound (fst (set_ st q)).
+  Proof.
+    intros [I1 I2]. split.
+    - intros k e p H. rewrite set_elems. destruct (set_emap_new _ _ _ _ H) as [H1|[_ [He N]]].
+      + destruct (I1 _ _ _ H1) as [q0 [s [En D]]]. exists q0, s. split; [|exact D].
+        apply nth_error_snoc_old. exact En.
+      + cbn [fst snd] in He, N. subst e. exists q, Constructed. split; [apply nth_error_snoc_new|].
+        apply new_entry_denotes. exact N.
+    - intros q0 e H. rewrite set_elems. rewrite set_nontriv, qfind_qinsert in H.
+      destruct (qfind q0 (nontriv st)) eqn:F.
+      + inversion H. subst n. destruct (I2 _ _ F) as [s En]. exists s. apply nth_error_snoc_old. exact En.
+      + destruct (quad_eqb q0 q) eqn:E; [|discriminate H]. apply quad_eqb_eq in E. inversion H. subst q0 e.
+        exists Constructed. apply nth_error_snoc_new.
+  Qed.
+
+  Lemma inv_sound_store (st : cstate) (el : estore) :
+    inv_sound st -> store_le (elems st) el -> inv_sound (with_elems st el).
+  Proof.
+    intros [I1 I2] [_ L]. split.
+    - intros k e p H. cbn [with_elems emap] in H. destruct (I1 _ _ _ H) as [q0 [s [En D]]].
+      destruct (L _ _ _ En) as [s' [En' _]]. exists q0, s'. split; [exact En'|exact D].
+    - intros q0 e H. cbn [with_elems nontriv] in H. destruct (I2 _ _ H) as [s En].
+      destruct (L _ _ _ En) as [s' [En' _]]. exists s'. exact En'.
+  Qed.
+
+  (** operator(): the state it leaves is sound, extends the old one, and the returned entry is the one stored under q *)
+  Lemma lookup_spec (st st1 : cstate) (q : quad) (r : nat * perm4) :
+    lookup st q = (st1, r) -> inv_sound st ->
+    inv_sound st1 /\ ext st st1 /\ qfind q (emap st1) = Some r.
+  Proof.
+    unfold lookup. intros H I. destruct (qfind q (emap st)) eqn:F.
+    - inversion H. subst st1 r. split; [exact I|]. split; [apply ext_refl|exact F].
+    - assert (E1 : st1 = fst (set_ st q)) by (rewrite H; reflexivity).
+      assert (E2 : r = snd (set_ st q)) by (rewrite H; reflexivity).
+      destruct (set_emap_self _ _ F) as [S1 S2]. subst st1 r.
+      split; [apply inv_sound_set; exact I|]. split; [apply ext_set|]. rewrite S2. exact S1.
+  Qed.
+
+  Lemma fold_left_inv {S X : Type} (P : S -> Prop) (f : S -> X -> S) :
+    (forall s x, P s -> P (f s x)) -> forall l s, P s -> P (fold_left f l s).
+  Proof. intros Hf. induction l as [|x r IH]; intros s H; [exact H|]. apply IH, Hf, H. Qed.
+
+  Definition fill_step (st : cstate) (q : quad) : cstate := if isInContainer st q then st else fst (set_ st q).
+
+  Lemma fill_unfold (fixed : bool) (nidx : nat) (st : cstate) (qs : list quad) :
+    fill fixed nidx st qs =
+    fold_left fill_step (match qs with [] => enumerate nidx | _ => qset_of_list qs end)
+              (mkState [] (if fixed then [] else nontriv st) (elems st)).
+  Proof. reflexivity. Qed.
+
+  Lemma inv_sound_fill (fixed : bool) (nidx : nat) (st : cstate) (qs : list quad) :
+    inv_sound st -> inv_sound (fill fixed nidx st qs).
+  Proof.
+    intros [I1 I2]. rewrite fill_unfold. apply fold_left_inv.
+    - intros s x H. unfold fill_step. destruct (isInContainer s x); [exact H|apply inv_sound_set; exact H].
+    - split; [intros k e p H; discriminate H|]. cbn [nontriv elems]. destruct fixed; [intros q0 e H; discriminate H|exact I2].
+  Qed.
+
+  (** repaired fill only: both maps describe the same elements *)
+  Definition inv_fixed (st : cstate) : Prop :=
+    (forall k e p, qfind k (emap st) = Some (e, p) ->
+       exists q0 s, nth_error (elems st) e = Some (q0, s) /\ qfind q0 (nontriv st) = Some e) /\
+    (forall q0 e, qfind q0 (nontriv st) = Some e -> exists p, qfind q0 (emap st) = Some (e, p)).
+
+  Lemma inv_fixed_init : inv_fixed init.
+  Proof. split; intros; discriminate. Qed.
+
+  Lemma inv_fixed_set (st : cstate) (q : quad) :
+    qfind q (emap st) = None -> inv_fixed st -> inv_fixed (fst (set_ st q)).
+  Proof.
+    intros F [I1 I2].
+    assert (Fn : qfind q (nontriv st) = None).
+    { destruct (qfind q (nontriv st)) eqn:G; [|reflexivity]. destruct (I2 _ _ G) as [p Hp]. congruence. }
+    split.
+    - intros k e p H. rewrite set_elems, set_nontriv. destruct (set_emap_new _ _ _ _ H) as [H1|[_ [He N]]].
+      + destruct (I1 _ _ _ H1) as [q0 [s [En G]]]. exists q0, s. split; [apply nth_error_snoc_old; exact En|].
+        rewrite qfind_qinsert, G. reflexivity.
+      + cbn [fst] in He. subst e. exists q, Constructed. split; [apply nth_error_snoc_new|].
+        rewrite qfind_qinsert, Fn, quad_eqb_refl. reflexivity.
+    - intros q0 e H. rewrite set_nontriv, qfind_qinsert in H. destruct (qfind q0 (nontriv st)) eqn:G.
+      + inversion H. subst n. destruct (I2 _ _ G) as [p Hp]. exists p. apply set_emap_mono. exact Hp.
+      + destruct (quad_eqb q0 q) eqn:E; [|discriminate H]. apply quad_eqb_eq in E. inversion H. subst q0 e.
+        exists (perm_at set_owner_perm_index). apply set_emap_self. exact F.
+  Qed.
+
+  Lemma inv_fixed_store (st : cstate) (el : estore) :
+    inv_fixed st -> store_le (elems st) el -> inv_fixed (with_elems st el).
+  Proof.
+    intros [I1 I2] [_ L]. split; [|exact I2].
+    intros k e p H. cbn [with_elems emap] in H. destruct (I1 _ _ _ H) as [q0 [s [En G]]].
+    destruct (L _ _ _ En) as [s' [En' _]]. exists q0, s'. split; [exact En'|exact G].
+  Qed.
+
+  Lemma isInContainer_false (st : cstate) (q : quad) : isInContainer st q = false -> qfind q (emap st) = None.
+  Proof. unfold isInContainer. destruct (qfind q (emap st)); [discriminate|reflexivity]. Qed.
+
+  Lemma isInContainer_true (st : cstate) (q : quad) :
+    isInContainer st q = true <-> exists r, qfind q (emap st) = Some r.
+  Proof.
+    unfold isInContainer. destruct (qfind q (emap st)) as [r|]; split; intros H; try reflexivity.
+    - exists r. reflexivity.
+    - discriminate H.
+    - destruct H as [r H]. discriminate H.
+  Qed.
+
+  Lemma inv_fixed_fill (nidx : nat) (st : cstate) (qs : list quad) : inv_fixed (fill true nidx st qs).
+  Proof.
+    rewrite fill_unfold. apply fold_left_inv.
+    - intros s x H. unfold fill_step. destruct (isInContainer s x) eqn:E; [exact H|].
+      apply inv_fixed_set; [apply isInContainer_false; exact E|exact H].
+    - split; intros; discriminate.
+  Qed.
+
+  Lemma inv_fixed_lookup (st st1 : cstate) (q : quad) (r : nat * perm4) :
+    lookup st q = (st1, r) -> inv_fixed st -> inv_fixed st1.
+  Proof.
+    unfold lookup. intros H I. destruct (qfind q (emap st)) eqn:F.
+    - inversion H. subst st1. exact I.
+    - assert (E1 : st1 = fst (set_ st q)) by (rewrite H; reflexivity). subst st1.
+      apply inv_fixed_set; assumption.
+  Qed.
+
+  (** * The caller's view is a lower bound of the real statuses *)
+
+  Definition inv_ghost (st : cstate) (g : gmap) : Prop :=
+    forall k s, qfind k g = Some s ->
+      exists e p q0 s', qfind k (emap st) = Some (e, p) /\ nth_error (elems st) e = Some (q0, s') /\
+                        status_leb s s' = true.
+
+  Lemma qfind_gsync (g : gmap) (st' : cstate) (k : quad) :
+    qfind k (gsync g st') =
+    match qfind k (emap st') with
+    | Some _ => Some (match qfind k g with Some s => s | None => Constructed end)
+    | None => None
+    end.
+  Proof.
+    unfold gsync. apply (qfind_map_key (fun q => match qfind q g with Some s => s | None => Constructed end)).
+  Qed.
+
+  Lemma qfind_gall (s : status) (g : gmap) (k : quad) :
+    qfind k (gall s g) = match qfind k g with Some _ => Some s | None => None end.
+  Proof. unfold gall. apply (qfind_map_key (fun _ => s)). Qed.
+
+  Lemma qfind_graise (q : quad) (s : status) (g : gmap) (k : quad) :
+    qfind k (graise q s g) =
+    match qfind k g with
+    | Some v => Some (if quad_eqb k q then smax s v else v)
+    | None => None
+    end.
+  Proof.
+    unfold graise. induction g as [|[k0 v0] r IH]; cbn [map qfind fst snd]; [reflexivity|].
+    destruct (quad_eqb k0 q) eqn:E0; cbn [qfind fst snd]; destruct (quad_eqb k k0) eqn:E; try exact IH.
+    - apply quad_eqb_eq in E. subst k0. rewrite E0. reflexivity.
+    - apply quad_eqb_eq in E. subst k0. rewrite E0. reflexivity.
+  Qed.
+
+  Lemma ghost_sync (st st' : cstate) (g : gmap) :
+    inv_ghost st g -> inv_sound st' -> ext st st' -> inv_ghost st' (gsync g st').
+  Proof.
+    intros G [I1 _] [M E] k s H. rewrite qfind_gsync in H.
+    destruct (qfind k (emap st')) as [[e p]|] eqn:F; [|discriminate H]. inversion H as [Hs]. clear H.
+    destruct (I1 _ _ _ F) as [q0 [s' [En _]]].
+    destruct (qfind k g) as [s0|] eqn:Fg.
+    - destruct (G _ _ Fg) as [e0 [p0 [q00 [s0' [F0 [En0 O0]]]]]].
+      apply M in F0. rewrite F in F0. inversion F0. subst e0 p0.
+      destruct (E _ _ _ En0) as [s2 [En2 O2]]. rewrite En in En2. inversion En2. subst q00 s2.
+      exists e, p, q0, s'. split; [reflexivity|]. split; [exact En|]. eapply status_leb_trans; eassumption.
+    - exists e, p, q0, s'. split; [reflexivity|]. split; [exact En|reflexivity].
+  Qed.
+
+  Lemma ghost_all (st' : cstate) (g : gmap) (s : status) :
+    (forall k e p, qfind k (emap st') = Some (e, p) ->
+       exists q0 s', nth_error (elems st') e = Some (q0, s') /\ status_leb s s' = true) ->
+    inv_ghost st' (gall s (gsync g st')).
+  Proof.
+    intros A k s0 H. rewrite qfind_gall, qfind_gsync in H.
+    destruct (qfind k (emap st')) as [[e p]|] eqn:F; [|discriminate H]. inversion H. subst s0.
+    destruct (A _ _ _ F) as [q0 [s' [En O]]]. exists e, p, q0, s'. split; [reflexivity|]. split; assumption.
+  Qed.
+
+  Lemma ghost_raise (st : cstate) (g : gmap) (q : quad) (s : status) :
+    inv_ghost st g ->
+    (forall e p q0 s', qfind q (emap st) = Some (e, p) -> nth_error (elems st) e = Some (q0, s') ->
+                       status_leb s s' = true) ->
+    inv_ghost st (graise q s g).
+  Proof.
+    intros G A k v' H. rewrite qfind_graise in H. destruct (qfind k g) as [v|] eqn:F; [|discriminate H].
+    inversion H as [Hv]. clear H. destruct (G _ _ F) as [e [p [q0 [s' [Fe [En O]]]]]].
+    exists e, p, q0, s'. split; [exact Fe|]. split; [exact En|].
+    destruct (quad_eqb k q) eqn:E; [|exact O]. apply quad_eqb_eq in E. subst k.
+    apply smax_lub; [|exact O]. eapply A; eassumption.
+  Qed.
+
+  (** * Single operations *)
+
+  Lemma prepare_elem_post (e : nat) (el el' : estore) (o : cout) (q : quad) (s : status) :
+    nth_error el e = Some (q, s) -> prepare_elem e el = (el', o) ->
+    o = OUnit /\ exists s', nth_error el' e = Some (q, s') /\ status_leb Prepared s' = true.
+  Proof.
+    intros En H. unfold prepare_elem in H. rewrite En in H.
+    destruct s; inversion H; subst; (split; [reflexivity|]).
+    - exists Prepared. split; [|reflexivity]. apply nth_error_upd_same. apply nth_error_Some. congruence.
+    - exists Prepared. split; [exact En|reflexivity].
+    - exists Computed. split; [exact En|reflexivity].
+  Qed.
+
+  Lemma compute_elem_post (e : nat) (el el' : estore) (q : quad) (s : status) :
+    nth_error el e = Some (q, s) -> compute_elem e el = (el', OUnit) -> nth_error el' e = Some (q, Computed).
+  Proof.
+    intros En H. unfold compute_elem in H. rewrite En in H. destruct s; inversion H; subst.
+    - apply nth_error_upd_same. apply nth_error_Some. congruence.
+    - exact En.
+  Qed.
+
+  Lemma emap_ids_In (st : cstate) (k : quad) (e : nat) (p : perm4) :
+    qfind k (emap st) = Some (e, p) -> In e (emap_ids st).
+  Proof.
+    intros H. apply qfind_In in H. unfold emap_ids.
+    change e with ((fun kv : quad * (nat * perm4) => fst (snd kv)) (k, (e, p))). apply in_map. exact H.
+  Qed.
+
+  Lemma nontriv_ids_In (st : cstate) (q0 : quad) (e : nat) : qfind q0 (nontriv st) = Some e -> In e (nontriv_ids st).
+  Proof.
+    intros H. apply qfind_In in H. unfold nontriv_ids.
+    change e with (snd (q0, e)). apply in_map. exact H.
+  Qed.
+
+  (** keys are unique in both maps (they model std::map) *)
+  Definition inv_keys (st : cstate) : Prop := NoDup (qkeys (emap st)) /\ NoDup (qkeys (nontriv st)).
+
+  Lemma inv_keys_init : inv_keys init.
+  Proof. split; constructor. Qed.
+
+  Lemma NoDup_add_alias (q : quad) (e : nat) (em : qmap (nat * perm4))
+        (a : list (nat * nat) * (nat * nat * nat * nat) * nat) :
+    NoDup (qkeys em) -> NoDup (qkeys (add_alias q e em a)).
+  Proof.
+    intros N. destruct a as [[req pos] idx]. unfold add_alias.
+    destruct (alias_cond q req); [|exact N].
+    destruct (qfind (alias_key q pos) em); [exact N|]. apply NoDup_qinsert. exact N.
+  Qed.
+
+  Lemma inv_keys_set (st : cstate) (q : quad) : inv_keys st -> inv_keys (fst (set_ st q)).
+  Proof.
+    intros [N1 N2]. split.
+    - unfold set_. cbn [fst emap]. apply fold_left_inv.
+      + intros s x H. apply NoDup_add_alias. exact H.
+      + apply NoDup_qinsert. exact N1.
+    - rewrite set_nontriv. apply NoDup_qinsert. exact N2.
+  Qed.
+
+  Lemma inv_keys_fill (fixed : bool) (nidx : nat) (st : cstate) (qs : list quad) :
+    inv_keys st -> inv_keys (fill fixed nidx st qs).
+  Proof.
+    intros [N1 N2]. rewrite fill_unfold. apply fold_left_inv.
+    - intros s x H. unfold fill_step. destruct (isInContainer s x); [exact H|apply inv_keys_set; exact H].
+    - split; [constructor|]. cbn [nontriv]. destruct fixed; [constructor|exact N2].
+  Qed.
+
+  Lemma inv_keys_lookup (st st1 : cstate) (q : quad) (r : nat * perm4) :
+    lookup st q = (st1, r) -> inv_keys st -> inv_keys st1.
+  Proof.
+    unfold lookup. intros H I. destruct (qfind q (emap st)).
+    - inversion H. subst st1. exact I.
+    - assert (E1 : st1 = fst (set_ st q)) by (rewrite H; reflexivity). subst st1. apply inv_keys_set. exact I.
+  Qed.
+
+  Lemma emap_ids_entry (st : cstate) (e : nat) :
+    inv_keys st -> In e (emap_ids st) -> exists k p, qfind k (emap st) = Some (e, p).
+  Proof.
+    intros [N _] H. unfold emap_ids in H. apply in_map_iff in H. destruct H as [[k [e' p]] [E I]].
+    cbn [fst snd] in E. subst e'. exists k, p. apply NoDup_In_qfind; assumption.
+  Qed.
+
+  Lemma nontriv_ids_entry (st : cstate) (e : nat) :
+    inv_keys st -> In e (nontriv_ids st) -> exists q0, qfind q0 (nontriv st) = Some e.
+  Proof.
+    intros [_ N] H. unfold nontriv_ids in H. apply in_map_iff in H. destruct H as [[q0 e'] [E I]].
+    cbn [snd] in E. subst e'. exists q0. apply NoDup_In_qfind; assumption.
+  Qed.
+
+  Lemma emap_ids_valid (st : cstate) :
+    inv_sound st -> inv_keys st -> forall e, In e (emap_ids st) -> (e < length (elems st))%nat.
+  Proof.
+    intros [I1 _] K e H. destruct (emap_ids_entry _ _ K H) as [k [p F]].
+    destruct (I1 _ _ _ F) as [q0 [s [En _]]]. apply nth_error_Some. congruence.
+  Qed.
+
+  Lemma nontriv_ids_valid (st : cstate) :
+    inv_sound st -> inv_keys st -> forall e, In e (nontriv_ids st) -> (e < length (elems st))%nat.
+  Proof.
+    intros [_ I2] K e H. destruct (nontriv_ids_entry _ _ K H) as [q0 F].
+    destruct (I2 _ _ F) as [s En]. apply nth_error_Some. congruence.
+  Qed.
+
+  (** * One step, both variants of fill: soundness and unique keys are kept, no dangling element is met *)
+
+  Definition inv_any (st : cstate) : Prop := inv_sound st /\ inv_keys st.
+
+  Lemma inv_any_store (st : cstate) (el : estore) :
+    inv_any st -> store_le (elems st) el -> inv_any (with_elems st el).
+  Proof. intros [I K] L. split; [apply inv_sound_store; assumption|exact K]. Qed.
+
+  Lemma cstep_any (fixed : bool) (van : quad -> bool) (nidx : nat) (st : cstate) (op : cop) :
+    inv_any st ->
+    inv_any (fst (cstep fixed van nidx st op)) /\ snd (cstep fixed van nidx st op) <> OThrows Dangling.
+  Proof.
+    intros [I K]. destruct op as [qs|qs|b|q|q|q|q n]; cbn [cstep].
+    - split; [|discriminate]. cbn [fst]. split; [apply inv_sound_fill; exact I|apply inv_keys_fill; exact K].
+    - unfold prepare_all.
+      pose proof (inv_sound_fill fixed nidx st qs I) as I1. pose proof (inv_keys_fill fixed nidx st qs K) as K1.
+      destruct (run_seq prepare_elem (emap_ids (fill fixed nidx st qs)) (elems (fill fixed nidx st qs))) as [el o] eqn:R.
+      cbn [fst snd]. split.
+      + apply inv_any_store; [split; assumption|]. eapply run_seq_le; [exact prepare_elem_le|exact R].
+      + destruct (run_seq_prepare _ _ _ _ R (emap_ids_valid _ I1 K1)) as [-> _]. discriminate.
+    - unfold compute_all.
+      set (ids := if b then nontriv_ids st else emap_ids st).
+      assert (Vd : forall e, In e ids -> (e < length (elems st))%nat).
+      { subst ids. destruct b; [apply nontriv_ids_valid|apply emap_ids_valid]; assumption. }
+      pose proof (run_seq_not_dangling compute_elem compute_elem_le compute_elem_not_dangling ids (elems st) Vd) as ND.
+      destruct (run_seq compute_elem ids (elems st)) as [el o] eqn:R. cbn [fst snd] in *. split; [|exact ND].
+      apply inv_any_store; [split; assumption|]. eapply run_seq_le; [exact compute_elem_le|exact R].
+    - split; [|discriminate]. destruct (lookup st q) as [st1 r] eqn:L. cbn [fst].
+      destruct (lookup_spec _ _ _ _ L I) as [I1 _]. split; [exact I1|]. eapply inv_keys_lookup; eassumption.
+    - destruct (lookup st q) as [st1 r] eqn:L. destruct (lookup_spec _ _ _ _ L I) as [I1 [_ F]].
+      pose proof (inv_keys_lookup _ _ _ _ L K) as K1. destruct r as [e p]. cbn [fst].
+      destruct I1 as [I1a I1b]. destruct (I1a _ _ _ F) as [q0 [s [En _]]].
+      destruct (prepare_elem e (elems st1)) as [el o] eqn:P. cbn [fst snd].
+      destruct (prepare_elem_post _ _ _ _ _ _ En P) as [-> _]. split; [|discriminate].
+      apply inv_any_store; [split; [split; assumption|exact K1]|]. eapply prepare_elem_le. exact P.
+    - destruct (lookup st q) as [st1 r] eqn:L. destruct (lookup_spec _ _ _ _ L I) as [I1 [_ F]].
+      pose proof (inv_keys_lookup _ _ _ _ L K) as K1. destruct r as [e p]. cbn [fst].
+      destruct I1 as [I1a I1b]. destruct (I1a _ _ _ F) as [q0 [s [En _]]].
+      assert (Ve : (e < length (elems st1))%nat) by (apply nth_error_Some; congruence).
+      pose proof (compute_elem_not_dangling e (elems st1) Ve) as ND.
+      destruct (compute_elem e (elems st1)) as [el o] eqn:P. cbn [fst snd] in *. split; [|exact ND].
+      apply inv_any_store; [split; [split; assumption|exact K1]|]. eapply compute_elem_le. exact P.
+    - destruct (lookup st q) as [st1 r] eqn:L. destruct (lookup_spec _ _ _ _ L I) as [I1 [_ F]].
+      pose proof (inv_keys_lookup _ _ _ _ L K) as K1. cbn [fst snd]. split; [split; assumption|].
+      destruct r as [e p]. destruct I1 as [I1a _]. destruct (I1a _ _ _ F) as [q0 [s [En _]]].
+      unfold eval_elem. destruct (perm_eval p n) as [sg t]. rewrite En. destruct s; try discriminate.
+      destruct (van q0); discriminate.
+  Qed.
+
+  (** whatever [Eval] returns as a value is chi of the requested key *)
+  Lemma eval_value_sound (fixed : bool) (van : quad -> bool) (nidx : nat) (st : cstate) (q : quad) (n : triple)
+        (sg : Z) (q0 : quad) (t : triple) :
+    inv_sound st -> eval_out fixed van nidx st q n = OVal sg q0 t -> vscale sg (chi q0 t) = chi q n.
+  Proof.
+    intros I. unfold eval_out. cbn [cstep]. destruct (lookup st q) as [st1 r] eqn:L.
+    destruct (lookup_spec _ _ _ _ L I) as [[I1 _] [_ F]]. cbn [snd]. destruct r as [e p].
+    destruct (I1 _ _ _ F) as [q1 [s [En D]]]. unfold eval_elem.
+    specialize (D n). destruct (perm_eval p n) as [sg' t'] eqn:PE. cbn [fst snd] in D.
+    rewrite En. destruct s; [discriminate| |].
+    - destruct (van q1); [|discriminate]. intros H. inversion H. subst. exact D.
+    - intros H. inversion H. subst. exact D.
+  Qed.
+
+  (** an element that is Computed is evaluable, and evaluation leaves the state alone *)
+  Lemma eval_computed (fixed : bool) (van : quad -> bool) (nidx : nat) (st : cstate) (q : quad) (n : triple)
+        (e : nat) (p : perm4) (q0 : quad) :
+    inv_sound st -> qfind q (emap st) = Some (e, p) -> nth_error (elems st) e = Some (q0, Computed) ->
+    exists sg t, cstep fixed van nidx st (Eval q n) = (st, OVal sg q0 t) /\ vscale sg (chi q0 t) = chi q n.
+  Proof.
+    intros [I1 _] F En. cbn [cstep]. unfold lookup. rewrite F. unfold eval_elem.
+    destruct (I1 _ _ _ F) as [q1 [s [En' D]]]. rewrite En in En'. inversion En'. subst q1 s.
+    specialize (D n). destruct (perm_eval p n) as [sg t]. cbn [fst snd] in D. rewrite En.
+    exists sg, t. split; [reflexivity|exact D].
+  Qed.
